@@ -122,7 +122,20 @@ class Build:
             return cval(r[1], self.val)
         if k == "param":
             if r[1] not in self.params:
-                self.params[r[1]] = Parameter(r[1], self.val[r[1]])
+                vp = getattr(self, "vparam_names", None)
+                if vp and r[1] in vp:
+                    # the parameters are the elements of ONE VectorParameter container (updated together with .set(array))
+                    from optyx import VectorParameter
+                    vals = np.empty(len(vp), dtype=object)
+                    for i, n in enumerate(vp):
+                        vals[i] = self.val[n]
+                    if not any(isinstance(e, (SReal, Dual)) for e in vals):
+                        vals = np.array([float(e) for e in vals])
+                    self.vparam = VectorParameter("pv", len(vp), values=vals)
+                    for i, n in enumerate(vp):
+                        self.params[n] = self.vparam[i]
+                else:
+                    self.params[r[1]] = Parameter(r[1], self.val[r[1]])
             return self.params[r[1]]
         if k == "bin":
             a, b = self.S(r[2]), self.S(r[3])
@@ -200,8 +213,25 @@ class Build:
             return carr(r[1], self.val)
         if r[0] == "lst":
             return list(carr(r[1], self.val))
+        if r[0] == "elst":   # a Python list (or object array) whose elements are scalar EXPRESSIONS / Parameters / numbers
+            items = [self.S(e) if _is_scalar_recipe(e) else cval(e, self.val) for e in r[1]]
+            if len(r) > 2 and r[2] == "array":
+                a = np.empty(len(items), dtype=object)
+                for i, e in enumerate(items):
+                    a[i] = e
+                return a
+            return items
         if r[0] == "arr2":
             return carr2(r[1], self.val)
+        if r[0] == "elst2":  # nested list / 2-D object array whose elements are scalar expressions / Parameters / numbers
+            rows = [[self.S(e) if _is_scalar_recipe(e) else cval(e, self.val) for e in row] for row in r[1]]
+            if len(r) > 2 and r[2] == "array":
+                a = np.empty((len(rows), len(rows[0])), dtype=object)
+                for i, row in enumerate(rows):
+                    for j, e in enumerate(row):
+                        a[i, j] = e
+                return a
+            return rows
         if r[0] == "lst2":   # nested Python list / tuple operand
             rows = [list(row) for row in carr2(r[1], self.val)]
             return tuple(tuple(row) for row in rows) if len(r) > 2 and r[2] == "tuple" else rows
@@ -314,6 +344,10 @@ def _fold(op, terms, assoc, ref=None):
             level = nxt
         return level[0]
     raise ValueError(assoc)
+
+
+def _is_scalar_recipe(e):
+    return isinstance(e, tuple) and bool(e) and isinstance(e[0], str) and e[0] not in ("sym", "np", "py")
 
 
 def _as_expr(x):
@@ -478,8 +512,19 @@ class Ref:
             return cval(r[1], self.val)
         if r[0] in ("arr", "lst"):
             return carr(r[1], self.val)
+        if r[0] == "elst":
+            a = np.empty(len(r[1]), dtype=object)
+            for i, e in enumerate(r[1]):
+                a[i] = self.S(e) if _is_scalar_recipe(e) else cval(e, self.val)
+            return a
         if r[0] in ("arr2", "lst2"):
             return carr2(r[1], self.val)
+        if r[0] == "elst2":
+            a = np.empty((len(r[1]), len(r[1][0])), dtype=object)
+            for i, row in enumerate(r[1]):
+                for j, e in enumerate(row):
+                    a[i, j] = self.S(e) if _is_scalar_recipe(e) else cval(e, self.val)
+            return a
         if r[0] in ("mat", "mT", "mslice", "mbin", "mrbin", "mneg"):
             return self.M(r)
         return self.V(r)
@@ -673,6 +718,19 @@ def free_names(r, acc=None):
         elif k in ("arr", "lst"):
             for e in r[1]:
                 c(e)
+        elif k == "elst":
+            for e in r[1]:
+                if _is_scalar_recipe(e):
+                    walk(e)
+                else:
+                    c(e)
+        elif k == "elst2":
+            for row in r[1]:
+                for e in row:
+                    if _is_scalar_recipe(e):
+                        walk(e)
+                    else:
+                        c(e)
         elif k in ("arr2", "lst2"):
             for row in r[1]:
                 for e in row:
